@@ -95,7 +95,7 @@ def build(tier, seed, known):
     add("dictionary_code_bijection", "dictionary", "i: int", ["0 <= i < %d" % (400 if q else 3000)],
         ["code = H.to_base_alphabet(i, COMP)", "if len(code) == 1: code = COMP[0] + code", "return len(code) == 2 and H.from_base_alphabet(code, COMP) == i"], 900,
         "dictionary codes: index -> two-character code over the compression alphabet -> index", "indices below %d (realisation-exhausted)" % (400 if q else 3000))
-    NW = 400 if q else 3000
+    NW = 400 if q else 2000
     add("dictionary_word_codes", "dictionary", "i: int", ["0 <= i < %d" % NW],
         ["i = pick(i, 0, %d)" % (NW - 1), "w = DICT.contents[i]", "code = outside_tracer(DICT.word_index, w)", "if code == -1: return note('not in the lookup table')",
          "if DICT.lookup[w] != i: return note('duplicate word: an earlier index wins')", "return len(code) == 2 and outside_tracer(H.uncompress_dict, code) == w"], 900,
